@@ -857,6 +857,13 @@ class _Run(object):
             ctx.klass('addrinfo.claim-correct')
             self.served('addrinfo')
             return
+        if got[1] in set(n for _, n in ok) and got[0] in self.m_bal.get(a['addr'], ()):
+            # the count comes from a complete UTXO answer and the balance is the copy of a balance a provider supplied
+            # for this very address in a later getbalance (the simulated providers differ by a marker amount, so the two
+            # fields can stem from two answers)
+            ctx.klass('addrinfo.balance-from-getbalance-answer')
+            self.served('addrinfo')
+            return
         self.disc('cache.addrinfo.fabricated', 'getcacheaddressinfo(address %d) reports balance %r in %r unspent outputs; '
                   'the complete UTXO answers for this address are %r (no provider reported anything else)' %
                   (a['addr'], got[0], got[1], sorted(ok)))
@@ -1623,6 +1630,20 @@ def cache_scenarios(ctx):
                     [gt, q('getutxos', addr=addr, after=1, limit=20), ai, gb]):
             for reopen in tf:
                 out.append((['gettransactions', 'getutxos'], seq[:-1] + mid(0, False, reopen) + seq[-1:]))
+    # balance of a list of addresses when part of the list is answered from the cache (per-address balances stored by
+    # earlier history reads) and the rest by a provider, then the per-address balances and cache records again
+    for a, b in ((0, 1), (1, 0)):
+        gta = q('gettransactions', addr=a, after=-1, limit=20)
+        gtb = q('gettransactions', addr=b, after=-1, limit=20)
+        gua = q('getutxos', addr=a, after=-1, limit=20)
+        tail = [q('getbalance', addrs=[b]), q('getbalance', addrs=[a]), q('addrinfo', addr=b), q('addrinfo', addr=a),
+                q('getbalance', addrs=[b, a])]
+        for head in ([gta, gtb], [gta], [gtb], [gua, gtb], [gta, gtb, q('getbalance', addrs=[a])],
+                     [q('getbalance', addrs=[a]), gta, gtb]):
+            for lst in ([a, b], [b, a]):
+                for reopen in tf:
+                    out.append((['gettransactions', 'getbalance'], head + [q('getbalance', addrs=lst)] +
+                                mid(0, False, reopen) + tail))
     # fee estimate while every provider is down (documented default), then again when they are back
     for blocks in (1, 3, 25):
         for dt in (1, 599, 601):
